@@ -19,6 +19,7 @@ import (
 	"io"
 	"net"
 	"os"
+	"runtime"
 	"strconv"
 	"strings"
 	"sync"
@@ -238,6 +239,34 @@ func frame(t int, body []byte) []byte {
 	return append(b, body...)
 }
 
+func genRetain(st *stack, out *vc.Out, r *vc.Rand, thorough bool) {
+	n := 1500
+	if thorough {
+		n = 6000
+	}
+	var tmpl []string
+	for _, h := range handshakeSamples {
+		// first-connection handshakes (client_id 0) are not refused: each one registers a new anonymous
+		// identity by design (bounded in production by the per-address rate limiter), so they are left out
+		if !strings.Contains(h, `"client_id":0`) {
+			tmpl = append(tmpl, "disp 1 p "+vc.Hex([]byte(h)))
+		}
+	}
+	for _, t := range tunnelOpenSamples {
+		tmpl = append(tmpl, "disp 32 p "+vc.Hex([]byte(t)))
+	}
+	// every registered command family with a body its handler rejects or accepts, both command packet types
+	for ct := 0; ct < 130; ct++ {
+		if thorough || ct%3 == int(r.Intn(3)) {
+			tmpl = append(tmpl, fmt.Sprintf("disp %d c %d %s", 0x10+ct%2, ct, vc.Hex([]byte(vc.Pick(r, cmdBodySamples)))))
+		}
+	}
+	tmpl = append(tmpl, "disp 3 n", "disp 34 p "+vc.Hex([]byte("data")), "disp 33 n")
+	for _, t := range tmpl {
+		execCase(st, out, fmt.Sprintf("retain %d %s", n, t))
+	}
+}
+
 func genLoop(st *stack, out *vc.Out, r *vc.Rand, thorough bool) {
 	sizesOf := func(n int) []int {
 		var s []int
@@ -301,9 +330,112 @@ func genLoop(st *stack, out *vc.Out, r *vc.Rand, thorough bool) {
 	}
 }
 
+// ---- retained memory: the same refused packet again and again from one address
+//
+//	retain <n> <disp case tokens…>
+//	## retain perop <bytes of live heap growth per packet, after a warm-up of n packets>
+//
+// "never allocates or RETAINS memory beyond a fixed bound": what a refused pre-authentication packet
+// leaves behind must not grow with the number of packets.  Live heap is measured after two GC cycles,
+// before and after the second batch of n packets (the first batch fills caches, pools and lazily
+// created per-address tables).
+
+func buildPacket(toks []string) *packet.TransferPacket {
+	ty, _ := strconv.Atoi(toks[1])
+	pkt := &packet.TransferPacket{PacketType: packet.Type(ty)}
+	switch toks[2] {
+	case "p":
+		pkt.Payload = vc.UnHex(toks[3])
+		if ty&0x3F == 0x10 || ty&0x3F == 0x11 {
+			var cp packet.CommandPacket
+			if err := json.Unmarshal(pkt.Payload, &cp); err != nil {
+				return nil
+			}
+			pkt.CommandPacket = &cp
+			pkt.Payload = nil
+		}
+	case "c":
+		ct, _ := strconv.Atoi(toks[3])
+		pkt.CommandPacket = &packet.CommandPacket{CommandType: packet.CommandType(ct), CommandId: "verif-cmd",
+			CommandBody: string(vc.UnHex(toks[4]))}
+	}
+	return pkt
+}
+
+func liveHeap() uint64 {
+	runtime.GC()
+	runtime.GC()
+	var m runtime.MemStats
+	runtime.ReadMemStats(&m)
+	return m.HeapAlloc
+}
+
+func runRetain(n int, dispToks []string) string {
+	st := newStack()
+	defer st.cancel()
+	addr := &net.TCPAddr{IP: net.IPv4(10, 7, 7, 7), Port: 45000}
+	one := func() string {
+		pkt := buildPacket(dispToks)
+		if pkt == nil {
+			return "skip"
+		}
+		fc := &fconn{addr: addr}
+		conn, err := st.sm.CreateConnection(fc, fc)
+		if err != nil {
+			return "setup-failed"
+		}
+		res := "ok"
+		func() {
+			defer func() {
+				if r := recover(); r != nil {
+					res = "panic " + strings.ReplaceAll(fmt.Sprint(r), " ", "_")
+				}
+			}()
+			_ = st.sm.HandlePacket(&types.StreamPacket{ConnectionID: conn.ID, Packet: pkt})
+		}()
+		_ = st.sm.CloseConnection(conn.ID)
+		return res
+	}
+	for i := 0; i < n; i++ {
+		if r := one(); r != "ok" {
+			return r
+		}
+	}
+	// three measured batches; a leak shows in every batch, allocator noise does not: report the minimum
+	per := int64(-1)
+	h1 := liveHeap()
+	for b := 0; b < 3; b++ {
+		for i := 0; i < n; i++ {
+			if r := one(); r != "ok" {
+				return r
+			}
+		}
+		h2 := liveHeap()
+		d := int64(0)
+		if h2 > h1 {
+			d = int64(h2-h1) / int64(n)
+		}
+		if per < 0 || d < per {
+			per = d
+		}
+		h1 = h2
+	}
+	return fmt.Sprintf("retain perop %d", per)
+}
+
 func execCase(st *stack, out *vc.Out, caseStr string) {
 	fmt.Fprintln(os.Stderr, "BEGIN", caseStr[:min(len(caseStr), 300)])
 	toks := strings.Fields(caseStr)
+	if toks[0] == "retain" {
+		n, _ := strconv.Atoi(toks[1])
+		obs := runRetain(n, toks[2:])
+		if obs == "skip" {
+			return
+		}
+		out.Case(caseStr, obs, caseStr[:min(len(caseStr), 120)])
+		out.Count("retain")
+		return
+	}
 	if toks[0] == "loop" {
 		execLoop(st, out, caseStr)
 		return
@@ -470,13 +602,14 @@ func main() {
 			if i := strings.Index(line, " ## "); i >= 0 {
 				line = line[:i]
 			}
-			if strings.HasPrefix(line, "disp ") || strings.HasPrefix(line, "loop ") {
+			if strings.HasPrefix(line, "disp ") || strings.HasPrefix(line, "loop ") || strings.HasPrefix(line, "retain ") {
 				execCase(st, out, line)
 			}
 		}
 	}
 	if !*noGen {
 		gen(st, out, vc.NewRand(*seed), *tier == "thorough")
+		genRetain(st, out, vc.NewRand(*seed+17), *tier == "thorough")
 		genLoop(st, out, vc.NewRand(*seed+31), *tier == "thorough")
 	}
 	out.Finish(*stats, nil)
